@@ -634,7 +634,9 @@ def canon(s, env=None, stack=()):
     if k == "func":
         # content of a function for C08 = parameters and body; name, annotations, closure cells and globals are not
         # part of it (closures are C06's subject)
-        return ["func", bool(s.get("lambda")), list(s["params"]), list(s["body"]), s.get("mode", "module") == "exec"]
+        # … except for functions without source: they are hashed through their code object, whose co_name is content
+        is_exec = s.get("mode", "module") == "exec"
+        return ["func", bool(s.get("lambda")), list(s["params"]), list(s["body"]), is_exec, s.get("name", "f") if is_exec else None]
     if k == "def":
         env[s["name"]] = s["v"]
         return canon(s["v"], env, stack)
@@ -1333,4 +1335,8 @@ def child_task(job, b: "Builder"):
 
 if __name__ == "__main__":
     if len(sys.argv) > 1 and sys.argv[1] == "child":
-        child_main()
+        # run the *imported* module, so that the classes of the object grammar live in `harness.engines.hashing` (as in the
+        # parent) and not in `__main__`: the qualified class name is part of the hash
+        from harness.engines import hashing as _self
+
+        _self.child_main()
